@@ -53,7 +53,7 @@ N = ProtocolTreeNode
 # ==================================================================================================
 class Kind(object):
     def __init__(self, name, direction, shape=None, module=None, enc=False, message=False, cls=None, request=None,
-                 down=None, top=True, gen=None, note=None):
+                 down=None, top=True, gen=None, note=None, down_exactly=None):
         self.name = name                # used in signatures
         self.direction = direction      # 'out' | 'in'
         self.shape = shape              # generator in vf/ref/shapes.py (None: gen)
@@ -66,6 +66,7 @@ class Kind(object):
         self.top = top                  # incoming: False = handled by the library itself, nothing for the application
         self.gen = gen                  # custom generator f(vector) -> (stanza, expected re-serialisation | None, defaults)
         self.note = note
+        self.down_exactly = down_exactly  # owner selected: exactly this many of the allowed answers (else: C07 counts)
 
     def supported(self, cfg):
         return cfg.has(self.module) and (cfg.enc or not self.enc)
@@ -90,8 +91,9 @@ def reply(shape, request, module=None, cls=None):
     KINDS.append(Kind("%s<-%s" % (shape, request), "in", shape, module, cls=cls or _clsname(shape), request=request))
 
 
-def custom(name, gen, module=None, enc=False, cls=None, down=None, top=True, note=None):
-    KINDS.append(Kind(name, "in", None, module, enc=enc, cls=cls, down=down, top=top, gen=gen, note=note))
+def custom(name, gen, module=None, enc=False, cls=None, down=None, top=True, note=None, down_exactly=None):
+    KINDS.append(Kind(name, "in", None, module, enc=enc, cls=cls, down=down, top=top, gen=gen, note=note,
+                      down_exactly=down_exactly))
 
 
 # ---- outgoing: tag-routed basics --------------------------------------------------------------------
@@ -244,6 +246,32 @@ custom("EncryptedExtendedText.in", _g_enc("extended_text", "text", None), enc=Tr
 custom("EncryptedImage.in", _g_enc("image", "media", "image"), module="media", enc=True, down="receipt",
        cls="ImageDownloadableMediaMessageProtocolEntity")
 
+
+
+# ---- incoming GROUP messages, real ciphertext from the library's own send path of a peer ---------------------
+def _g_group(scenario, payload_kind):
+    def gen(v):
+        attrs = {"id": S.ALPHABETS["id"][v % 6], "t": S.ALPHABETS["ts"][v % 3], "notify": S.ALPHABETS["text"][v % 6]}
+        if v % 2:
+            attrs["offline"] = S.ALPHABETS["flag"][(v // 2) % 2]
+        stanza, plain = P.group_message_for_us(scenario, payload_kind, v, attrs)
+        return stanza, plain, [("/message", "offline", "0")]
+    return gen
+
+
+for _sc, _what in (("first-nosession", "first message of a peer we have no session with: pkmsg(sender key) + skmsg"),
+                   ("first-session", "first message of a peer with an established session: msg(sender key) + skmsg"),
+                   ("later", "sender key already known: skmsg only")):
+    custom("EncryptedGroupText.%s.in" % _sc, _g_group(_sc, "text"), enc=True, cls="TextMessageProtocolEntity",
+           note=_what)
+    custom("EncryptedGroupImage.%s.in" % _sc, _g_group(_sc, "image"), module="media", enc=True, down="receipt",
+           cls="ImageDownloadableMediaMessageProtocolEntity", note=_what)
+# sender key never distributed to us: nothing to present, the receive layer asks for a re-send exactly once
+custom("EncryptedGroupText.unknown-senderkey.in", _g_group("unknown-senderkey", "text"), enc=True, top=False,
+       down="retry", down_exactly=1)
+custom("EncryptedGroupImage.unknown-senderkey.in", _g_group("unknown-senderkey", "image"), enc=True, top=False,
+       down="retry", down_exactly=1)
+
 # shapes deliberately outside the table, with the reason (DESIGN Appendix A)
 NOT_KINDS = {
     "UnregisterIq": "never passes its xmlns to the base class, no layer claims it (Appendix A)",
@@ -386,11 +414,15 @@ for _k in KINDS:
         _k.scenario = None
 
 
-def down_allowed(kind, cfg, node):
+def down_allowed(kind, cfg, node, stanza=None):
     """is this stanza one of the mandatory answers the table allows for the kind (their count is C07's)"""
     d = kind.down
     if not isinstance(node, ProtocolTreeNode):
         return False
+    if d == "retry":
+        return cfg.enc and node.tag == "receipt" and node["type"] == "retry" and stanza is not None \
+            and node["id"] == stanza["id"] and node["to"] == stanza["from"] \
+            and node["participant"] == stanza["participant"]
     if d == "notification-ack":
         return node.tag == "ack" and node["class"] == "notification"
     if d == "call":
@@ -527,13 +559,16 @@ def run_case(kind, cfg, mask, vector):
         # ---- incoming -------------------------------------------------------------------------------------
         if S.canon(stanza) != before:
             findings.append(("stanza-mutated", dict(shown, after=S.render(stanza)[:600])))
-        extra = [n for n in sent if not down_allowed(kind, cfg, n)]
+        extra = [n for n in sent if not down_allowed(kind, cfg, n, stanza)]
         if extra:
             findings.append(("extra-stanza-down", dict(shown, extra=[_render(n) for n in extra])))
+        if supported and kind.down_exactly is not None and len(sent) - len(extra) != kind.down_exactly:
+            findings.append(("%s-count" % kind.down, dict(shown, expected=kind.down_exactly,
+                                                          observed=len(sent) - len(extra))))
         if not supported or not kind.top:
             if got:
                 findings.append(("absent-module-delivers" if kind.top else "delivered-upward", shown))
-            if kind.top is False and supported and not extra:
+            if kind.top is False and supported and not findings:
                 nontrivial = ("in", kind.name, mask, vector, "consumed")
             return findings, nontrivial, obs
         if not got:
